@@ -9,6 +9,7 @@ mod dissem_driver;
 mod execstate_driver;
 mod graph;
 mod merkle_driver;
+mod node_driver;
 mod pool_driver;
 mod repair_driver;
 mod sim;
@@ -60,6 +61,19 @@ fn main() -> anyhow::Result<()> {
                 rep.to_json("pool")
             }
         }
+        "replay-node" => {
+            let path = arg_after(&args, "--tlc-out").expect("--tlc-out");
+            let stakes: Vec<u64> = arg_after(&args, "--stakes").expect("--stakes").split(',').map(|x| x.parse().unwrap()).collect();
+            let own: usize = arg_after(&args, "--own").and_then(|s| s.parse().ok()).unwrap_or(0);
+            let max_slot: u64 = arg_after(&args, "--max-slot").and_then(|s| s.parse().ok()).unwrap_or(7);
+            let sample = arg_after(&args, "--sample").and_then(|s| s.parse().ok());
+            let budget_s = arg_after(&args, "--budget").and_then(|s| s.parse().ok()).unwrap_or(0);
+            let max_div = arg_after(&args, "--max-div").and_then(|s| s.parse().ok()).unwrap_or(200);
+            let mut d = node_driver::NodeDriver::new(&stakes, own, max_slot, seed);
+            let g = graph::Graph::load(&path)?;
+            let opts = graph::ReplayOpts { sample, seed, max_div, budget_s };
+            graph::replay(&g, &mut d, &opts).to_json("node")
+        }
         "replay-votor" => {
             let path = arg_after(&args, "--tlc-out").expect("--tlc-out");
             let own: usize = arg_after(&args, "--own").and_then(|s| s.parse().ok()).unwrap_or(0);
@@ -67,7 +81,10 @@ fn main() -> anyhow::Result<()> {
             let sample = arg_after(&args, "--sample").and_then(|s| s.parse().ok());
             let budget_s = arg_after(&args, "--budget").and_then(|s| s.parse().ok()).unwrap_or(0);
             let max_div = arg_after(&args, "--max-div").and_then(|s| s.parse().ok()).unwrap_or(200);
-            let mut d = votor_driver::VotorDriver::new(&[1, 1, 1], own, max_slot, seed);
+            let stakes: Vec<u64> = arg_after(&args, "--stakes")
+                .map(|s| s.split(',').map(|x| x.parse().unwrap()).collect())
+                .unwrap_or_else(|| vec![1, 1, 1]);
+            let mut d = votor_driver::VotorDriver::new(&stakes, own, max_slot, seed);
             let g = graph::Graph::load(&path)?;
             let opts = graph::ReplayOpts { sample, seed, max_div, budget_s };
             graph::replay(&g, &mut d, &opts).to_json("votor")
